@@ -1,3 +1,5 @@
+#[cfg(cachelito_verif)]
+use crate::verif_seams::sim_std as std;
 use std::cell::RefCell;
 use std::collections::{HashMap, VecDeque};
 use std::fmt::Debug;
